@@ -1,6 +1,8 @@
 /* System harness for C14: a raw SEQPACKET client speaking and mis-speaking ctl_proto.h to live sockets,
    next to the libxcmctl client, while the owner keeps servicing its sockets and a message flow runs. */
 #include "sysutil.h"
+#include <sys/ioctl.h>
+#include <linux/sockios.h>
 #include <dirent.h>
 #include <fcntl.h>
 #include <poll.h>
@@ -332,6 +334,43 @@ int main(void)
 	    }
 	    service(20);
 	    fprintf(o, "mix flooded=%d unsolicited=%d answered=%d matches=%d\n", flooded, unsolicited, answered, matches);
+	    free(q); free(r);
+	} else if (!strcmp(w[0], "MIX2") && n == 2) {
+	    /* MIX2 <sock>: session A (first accepted, table slot 0) has been answered before (its slot holds a get-all reply);
+	       session B sends a request; the owner is stepped one API call at a time until B's request has been consumed
+	       (SIOCOUTQ of B's descriptor drops to 0: its reply is built and waits for the next control turn); at that moment A
+	       hangs up, so B's session is moved into the freed slot with its reply pending.  B must receive its own answer. */
+	    struct xcm_socket *s = sock_of(w[1]);
+	    int a = raw_connect(path_of(w[1])); service(8);
+	    int b = raw_connect(path_of(w[1])); service(8);
+	    struct ctl_proto_msg *q = calloc(1, sizeof(*q)), *r = calloc(1, sizeof(*r));
+	    int a_answered = 0, consumed = 0, answered = 0, matches = 0, rtype = -1;
+	    if (a >= 0 && b >= 0) {
+		q->type = ctl_proto_type_get_all_attr_req;
+		send(a, q, sizeof(*q), MSG_NOSIGNAL);
+		a_answered = raw_reply(a, r) == sizeof(*r);
+		memset(q, 0, sizeof(*q)); q->type = ctl_proto_type_get_attr_req; strcpy(q->get_attr_req.attr_name, "xcm.type");
+		send(b, q, sizeof(*q), MSG_NOSIGNAL);
+		char buf[8];
+		for (int i = 0; i < 4000 && !consumed; i++) {
+		    if (s == T.server) { struct xcm_socket *x = xcm_accept(s); if (x) xcm_close(x); }
+		    else xcm_receive(s, buf, sizeof(buf));
+		    int outq = -1;
+		    if (ioctl(b, SIOCOUTQ, &outq) == 0 && outq == 0) consumed = 1;
+		}
+		/* B may already have been answered if two control turns fell into one step: then the window was missed */
+		int early = recv(b, r, sizeof(*r), MSG_PEEK) > 0;
+		close(a); a = -1;
+		if (raw_reply(b, r) == sizeof(*r)) {
+		    answered = 1; rtype = r->type;
+		    char v[64] = ""; xcm_attr_get_str(s, "xcm.type", v, sizeof(v));
+		    matches = r->type == ctl_proto_type_get_attr_cfm && !strcmp(r->get_attr_cfm.attr.str_value, v);
+		}
+		fprintf(o, "mix2 a_answered=%d consumed=%d window=%d answered=%d matches=%d rtype=%d\n", a_answered, consumed, !early, answered, matches, rtype);
+	    } else fprintf(o, "mix2 noconnect\n");
+	    if (a >= 0) close(a);
+	    if (b >= 0) close(b);
+	    service(20);
 	    free(q); free(r);
 	} else if (!strcmp(w[0], "D") && n == 2) {
 	    /* D <count>: data path oracle: count messages client -> accepted while ctl sessions come and go */
